@@ -116,6 +116,11 @@ Proof.
   intros e x H rf env v Hv. destruct e; cbn [plain_bvar] in H; try discriminate.
   apply name_eqb_eq in H. subst. cbn [beval]. rewrite Hv. reflexivity.
 Qed.
+Lemma plain_bvar_pure : forall e x, plain_bvar e x = true -> forall t, bpure [(x, t)] e = t.
+Proof.
+  intros e x H t. destruct e; cbn [plain_bvar] in H; try discriminate.
+  cbn [bpure lookup_b]. rewrite H. reflexivity.
+Qed.
 Lemma filterM_ret : forall A (p : A -> outcome bool) (q : A -> bool) l,
   (forall a, In a l -> p a = Ret (q a)) -> filterM p l = Ret (filter q l).
 Proof.
@@ -203,6 +208,9 @@ Record ctx_facts (c : ctx_table) : Prop := {
   f_ip : ok_special c (ct_ip_acc c) (ct_ip_name c) = true;
   f_regs : forall r, In r (ct_registers c) -> ok_register c r = true;
   f_gpr : strs_eqb (ct_gpr c) (ct_registers c) = true;
+  f_valid_all : plain_bvar (ct_valid_all c) v_memo = true;
+  f_valid_default : plain_bvar (ct_valid_default c) v_contains = true;
+  f_get_cond : plain_bvar (ct_get_cond c) v_iv = true;
   f_md_get : plain_var (ct_md_get c) v_ga = true;
   f_md_valid : plain_bvar (ct_md_valid c) v_iv = true;
   f_md_filter : plain_bvar (ct_md_filter c) v_iv = true;
@@ -225,6 +233,9 @@ Proof.
   apply app_eq_nil in H. destruct H as [H9 H].
   apply app_eq_nil in H. destruct H as [H10 H].
   apply app_eq_nil in H. destruct H as [H11 H].
+  apply app_eq_nil in H. destruct H as [E1 H].
+  apply app_eq_nil in H. destruct H as [E2 H].
+  apply app_eq_nil in H. destruct H as [E3 H].
   apply app_eq_nil in H. destruct H as [D1 H].
   apply app_eq_nil in H. destruct H as [D2 H].
   apply app_eq_nil in H. destruct H as [D3 H].
@@ -242,6 +253,9 @@ Proof.
   - exact (diag_nil _ _ _ _ H9 _ (or_introl eq_refl)).
   - exact (diag_nil _ _ _ _ H10).
   - exact (diag_nil _ _ _ _ H11 _ (or_introl eq_refl)).
+  - exact (diag_nil _ _ _ _ E1 _ (or_introl eq_refl)).
+  - exact (diag_nil _ _ _ _ E2 _ (or_introl eq_refl)).
+  - exact (diag_nil _ _ _ _ E3 _ (or_introl eq_refl)).
   - exact (diag_nil _ _ _ _ D1 _ (or_introl eq_refl)).
   - exact (diag_nil _ _ _ _ D2 _ (or_introl eq_refl)).
   - exact (diag_nil _ _ _ _ D3 _ (or_introl eq_refl)).
@@ -268,6 +282,23 @@ Qed.
 Section WithFacts.
 Variable c : ctx_table.
 Hypothesis F : ctx_facts c.
+
+(* the generated conditions are the plain calls *)
+Lemma is_valid_all : forall n, is_valid c n VAll = is_some (memoize c n).
+Proof. intro n. cbn [is_valid]. apply (plain_bvar_pure _ _ (f_valid_all c F)). Qed.
+Lemma is_valid_some : forall n s, is_valid c n (VSome s) = existsb (fun a => mem a s) (alts_of c n).
+Proof.
+  intros n s. cbn [is_valid]. unfold alts_of. destruct (find_arm n (ct_groups c)); [reflexivity|].
+  rewrite (plain_bvar_pure _ _ (f_valid_default c F)). cbn [existsb]. rewrite orb_false_r. reflexivity.
+Qed.
+Lemma get_register_unfold : forall rf n v,
+  get_register c rf n v =
+  if is_valid c n v then
+    match get_always c rf n with
+    | Ret x => Ret (Some x) | Fail => Fail | Panic t => Panic t | OutOfFuel => OutOfFuel
+    end
+  else Ret None.
+Proof. intros rf n v. unfold get_register. rewrite (plain_bvar_pure _ _ (f_get_cond c F)). reflexivity. Qed.
 
 Lemma accepted_tables : forall n, In n (accepted c) ->
   exists a b, (exists e, find_arm n (ct_get c) = Some e /\ plain_read e = Some a) /\
@@ -331,7 +362,7 @@ Proof.
     cbn [obind]. rewrite Hob. reflexivity. }
   split; [exact Hga|].
   split.
-  { unfold get_register. cbn [is_valid]. rewrite (f_acc_memo c F n Hn), Hga. reflexivity. }
+  { rewrite get_register_unfold, is_valid_all, (f_acc_memo c F n Hn), Hga. reflexivity. }
   split.
   { intros f i Hfi. unfold upd. rewrite Hfi. reflexivity. }
   split.
@@ -378,10 +409,10 @@ Lemma unknown_absent : forall n, memoize c n = None ->
   (forall rf s, (forall a, In a s -> memoize c a <> None) -> get_register c rf n (VSome s) = Ret None).
 Proof.
   intros n H. split; [|split].
-  - intro rf. unfold get_register. cbn [is_valid]. rewrite H. reflexivity.
+  - intro rf. rewrite get_register_unfold, is_valid_all, H. reflexivity.
   - intros rf v. unfold set_reg. destruct (find_arm n (ct_set c)) as [l|] eqn:E; [|reflexivity].
     exfalso. apply find_arm_In in E. apply (f_acc_memo c F) in E. rewrite H in E. discriminate.
-  - intros rf s Hs. unfold get_register. cbn [is_valid]. unfold alts_of.
+  - intros rf s Hs. rewrite get_register_unfold, is_valid_some. unfold alts_of.
     destruct (find_arm n (ct_groups c)) as [alts|] eqn:E.
     + exfalso. apply find_arm_In in E. apply (f_groups c F) in E. rewrite H in E. discriminate.
     + cbn [existsb]. destruct (mem n s) eqn:E2; [|reflexivity].
@@ -394,7 +425,7 @@ Lemma known_no_panic : forall n m, memoize c n = Some m -> forall rf,
 Proof.
   intros n m H rf. pose proof (memoizable_accepted n m H) as An.
   pose proof (get_always_accepted rf n An) as G. split; [exact G|].
-  unfold get_register. cbn [is_valid]. rewrite H, G. reflexivity.
+  rewrite get_register_unfold, is_valid_all, H, G. reflexivity.
 Qed.
 
 Lemma special_agrees : forall acc n, ok_special c acc n = true -> forall rf,
@@ -445,7 +476,7 @@ Lemma validity_aliases : forall n, In n (accepted c) -> forall s,
 Proof.
   intros n Hn s. pose proof (f_valid c F n Hn) as V. unfold ok_valid in V.
   apply andb_true_iff in V. destruct V as [V1 V2]. rewrite forallb_forall in V1, V2.
-  cbn [is_valid]. rewrite existsb_exists. split.
+  rewrite is_valid_some. rewrite existsb_exists. split.
   - intros [a [Ha Hs]]. exists a. split; [apply mem_In; exact Hs|].
     apply opt_str_eqb_spec. exact (V1 a Ha).
   - intros [a [Ha Hm]]. exists a. split; [|apply mem_In; exact Ha].
@@ -459,7 +490,7 @@ Qed.
 Lemma get_register_value : forall n, In n (accepted c) -> forall rf v,
   get_register c rf n v = if is_valid c n v then Ret (Some (rf_get rf (loc_of c n))) else Ret None.
 Proof.
-  intros n Hn rf v. unfold get_register. rewrite (get_always_accepted rf n Hn). reflexivity.
+  intros n Hn rf v. rewrite get_register_unfold. rewrite (get_always_accepted rf n Hn). reflexivity.
 Qed.
 
 Lemma named_known : forall rf n, memoize c n <> None -> named c rf n = Ret (n, rf_get rf (loc_of c n)).
@@ -533,7 +564,7 @@ Proof.
 Qed.
 Lemma md_get_register_eq : forall rf n v, md_get_register c rf n v = get_register c rf n v.
 Proof.
-  intros rf n v. unfold md_get_register, get_register.
+  intros rf n v. rewrite get_register_unfold. unfold md_get_register.
   rewrite (md_is_valid_eq _ (f_md_valid c F)). cbn [obind]. rewrite md_get_always_eq.
   destruct (is_valid c n v); [|reflexivity]. destruct (get_always c rf n); reflexivity.
 Qed.
@@ -564,7 +595,7 @@ Proof.
   rewrite Hl in Hl'. inversion Hl'; subst l'.
   split; [exact S|]. split; [rewrite md_get_always_eq; exact G|].
   split.
-  { intro s. rewrite md_get_register_eq. unfold get_register. rewrite G. reflexivity. }
+  { intro s. rewrite md_get_register_eq, get_register_unfold, G. reflexivity. }
   split; [unfold format_register; rewrite G; reflexivity|].
   split; intro E.
   - unfold md_stack_pointer. rewrite (special_follows _ _ (f_sp c F) n l Hn Hl rf v), E.
@@ -605,7 +636,7 @@ Proof.
   { rewrite V. unfold listing.
     rewrite (filter_map_fst (fun n => is_valid c n VAll) (fun n => rf_get rf (loc_of c n))).
     rewrite filter_all; [reflexivity|].
-    intros x Hx. cbn [is_valid]. rewrite (register_known x Hx). reflexivity. }
+    intros x Hx. rewrite is_valid_all, (register_known x Hx). reflexivity. }
   split.
   { intro s. rewrite V. unfold listing.
     rewrite (filter_map_fst (fun n => is_valid c n (VSome s)) (fun n => rf_get rf (loc_of c n))). reflexivity. }
